@@ -370,3 +370,75 @@ def replay_fix_zero(dag):
                                         expected="not fixed: a route containing the list in order can use this edge" if may else "fixed to 0")
         return dict(ok=False, function=fn.__qualname__, tried=tried)
     return run
+
+
+def replay_read_graph(o, model):
+    """native replay for graphutils.read_graph: blocks are assembled from line DESCRIPTIONS (id line, '#S' lines, blanks, count line, edge lines, malformed
+    lines), so what the block means is known by construction; the real read_graph is run on each and compared with that meaning (id, constraints as
+    consecutive pairs of each distinct '#S' line with >= 2 nodes, edges with the weight of their last line, n/m stored = counts of the returned graph,
+    ValueError exactly for a malformed edge line, a non-numeric weight / count, or a constraint edge that is no edge)."""
+    import itertools
+    from flowpaths.utils import graphutils as gu
+    S_POOL = [["a", "b", "c"], ["a", "b"], ["a"], ["b", "d"], ["a", "c"]]
+    BODY = [("edge", "a", "b", "1"), ("edge", "b", "c", "2.5"), ("edge", "a", "b", "7"), ("edge", "a", "c", "4"), ("blank",), ("bad", "a b"), ("bad", "a c x"), ("bad", "a b 1 2")]
+    tried = 0
+    heads = [()] + [(s,) for s in range(len(S_POOL))] + [(s, t) for s in range(len(S_POOL)) for t in range(len(S_POOL))]
+    bodies = [b for n in (0, 1, 2, 3) for b in itertools.product(range(len(BODY)), repeat=n)]
+    for hi, head in enumerate(heads):
+        for idpos in (0, len(head)):
+            for count in ("3", "0", "x", None):
+                for bi, body in enumerate(bodies):
+                    if (hi * 7 + bi) % 5 and len(body) == 3:
+                        continue
+                    lines, k = [], 0
+                    for pos in range(len(head) + 1):
+                        if pos == idpos:
+                            lines.append("# block one\n")
+                        if pos < len(head):
+                            lines.append(" #S " + " ".join(S_POOL[head[pos]]) + "\n")
+                    lines.append("\n")
+                    if count is not None:
+                        lines.append(count + "\n")
+                    for b in body:
+                        d = BODY[b]
+                        lines.append("\n" if d[0] == "blank" else ((" ".join(d[1:]) if d[0] == "edge" else d[1]) + "\n"))
+                    # meaning
+                    cons, seen = [], set()
+                    for s in head:
+                        key = tuple(S_POOL[s])
+                        if key not in seen:
+                            seen.add(key)
+                            if len(key) >= 2:
+                                cons.append(list(zip(key, key[1:])))
+                    edges, bad = {}, count in ("x", None)
+                    if not bad and count != "0":
+                        for b in body:
+                            d = BODY[b]
+                            if d[0] == "bad":
+                                bad = True
+                                break
+                            if d[0] == "edge":
+                                edges[(d[1], d[2])] = float(d[3])
+                        if not bad and any(e not in edges for c in cons for e in c):
+                            bad = True
+                    if not bad and count != "0" and (not edges or not _has_source_and_sink(edges)):
+                        continue        # outside C20's domain (the stored width needs a graph with a source and a sink)
+                    tried += 1
+                    try:
+                        G = gu.read_graph(list(lines))
+                        got = ("graph", G.graph.get("id"), G.graph.get("constraints"), {(u, v): d.get("flow") for u, v, d in G.edges(data=True)},
+                               (G.graph.get("n"), G.graph.get("m")) if G.number_of_edges() else None, (G.number_of_nodes(), G.number_of_edges()) if G.number_of_edges() else None)
+                    except ValueError as e:
+                        got = ("ValueError",)
+                    except Exception as e:      # noqa
+                        got = ("raised", type(e).__name__, str(e)[:120])
+                    want = ("ValueError",) if bad else ("graph", "block one", cons, edges if count != "0" else {}, None, None)
+                    same = got[0] == want[0] and (got[0] != "graph" or (got[1] == want[1] and got[2] == want[2] and got[3] == want[3] and got[4] == got[5]))
+                    if not same:
+                        return dict(ok=True, function="graphutils.read_graph", block=lines, expected=repr(want)[:400], observed=repr(got)[:400])
+    return dict(ok=False, function="graphutils.read_graph", tried=tried)
+
+
+def _has_source_and_sink(edges):
+    nodes = {x for e in edges for x in e}
+    return any(all(v != n for (_, v) in edges) for n in nodes) and any(all(u != n for (u, _) in edges) for n in nodes)
